@@ -391,6 +391,19 @@ class Interp:
             return it
         if isinstance(it, _LazyGen):
             return it.run()
+        if isinstance(it, SBytes):
+            # the bytes of a symbolic byte string as ints: its length is settled first (a path decision per possible
+            # length, bounded), then each position is read
+            n = it.length()
+            if not isinstance(n, int):
+                nt = zint(n)
+                for k in range(0, 33):
+                    if self.ctx.decide(nt == k):
+                        n = k
+                        break
+                else:
+                    raise Undecided("iteration over a byte string of unbounded symbolic length")
+            return [self.byte_at(it, i) for i in range(n)]
         try:
             return iter(it)
         except TypeError:
